@@ -22,6 +22,12 @@ CHECKS = {
   text="Full cartesian product of boundary values (base fee, block gas limit incl. unlimited, elasticity, denominator, min gas price, g around the target) evaluated on the real keeper and compared with a transcription of the statement; monotonicity checked on every adjacent g pair; EndBlock gas-figure clamp on a full grid; all block sequences <= 3 (thorough 4) over 8-12 gas figures on 3 parameter fixtures against the recurrence.",
   note="Monotonicity required only where base >= floor(min gas price) (the statement is self-inconsistent below; recorded as observation). T=0 outside the domain. Virtual block boundary in the history part.",
   design="DESIGN.md §3 C17"),
+ "C09": dict(
+  technique="exhaustive grid enumeration of the schedule functions against a step-function reference plus explicit-state exploration of create/merge/clawback/funder-update sequences on the real msg servers with a lock-step union/cap model",
+  engine="E3",
+  text="Pure part: every ordered pair of ~107 single-denomination and ~43 multi-denomination period lists (zero-length periods, simultaneous events) x 9 start-offset pairs x every read instant through ReadSchedule, ReadPastPeriodCount, DisjunctPeriods, ConjunctPeriods, account identities and ComputeClawback. Stateful part: all sequences <= 3 (thorough 4) over create, merge via both message paths, clawback by funder/other/to third party, funder updates and time jumps; after each message the stored account is compared with the union/cap reference at every event time +-1, bank deltas must equal the grant / the unvested amount, and the account must pass Validate().",
+  note="Union property required for t > max(start), capping outside (minStart,maxStart] (boundary rule of ReadSchedule at t = start). Messages run through the msg-service router; block time set on the branch header.",
+  design="DESIGN.md §3 C09"),
 }
 
 PENDING = {}
